@@ -12,36 +12,6 @@ from . import values as V
 from .values import SBool, SInt, SOpt, Unsupported
 
 
-def _zcheck(solver, timeout_ms):
-    """`solver.check()` under a watchdog.  z3's own `timeout` is polled at the solver's convenience and was seen not to
-    fire for minutes in simplification-heavy queries on a busy machine; a timer thread (ctypes releases the GIL
-    during the call) interrupts the context at 1.5x the budget + 5 s, which makes the call return `unknown`.  The
-    verdict logic is untouched: `unknown` goes down the ladder of `State._decide` like any other."""
-    import threading
-
-    box = {"live": True}
-    lock = threading.Lock()
-
-    def fire():
-        with lock:
-            if box["live"]:
-                try:
-                    solver.ctx.interrupt()
-                except Exception:  # noqa: BLE001
-                    pass
-
-    t = threading.Timer(timeout_ms / 1000.0 * 1.5 + 5.0, fire)
-    t.daemon = True
-    t.start()
-    try:
-        return solver.check()
-    finally:
-        with lock:
-            box["live"] = False
-        t.cancel()
-
-
-
 class PathEnd(Exception):
     """The current path stops here (infeasible assumption, or deliberately cut)."""
 
@@ -239,7 +209,7 @@ class State:
         self.qf_solver.set("timeout", timeout_ms)
         self.qf_solver.push()
         self.qf_solver.add(extra)
-        r = _zcheck(self.qf_solver, timeout_ms)
+        r = self.qf_solver.check()
         self.qf_solver.pop()
         self.ex.solver_time += time.time() - t0
         self.ex.queries += 1
@@ -250,7 +220,7 @@ class State:
         self.solver.set("timeout", timeout_ms)
         self.solver.push()
         self.solver.add(extra)
-        r = _zcheck(self.solver, timeout_ms)
+        r = self.solver.check()
         model = self.solver.model() if r == z3.sat else None
         self.solver.pop()
         self.ex.solver_time += time.time() - t0
@@ -263,7 +233,7 @@ class State:
         self.qf_solver.set("timeout", timeout_ms)
         self.qf_solver.push()
         self.qf_solver.add(extra)
-        r = _zcheck(self.qf_solver, timeout_ms)
+        r = self.qf_solver.check()
         self.qf_solver.pop()
         self.ex.queries += 1
         return r == z3.unsat
@@ -275,7 +245,7 @@ class State:
         s.set("timeout", timeout_ms)
         s.add(*self.pc)
         s.add(extra)
-        r = _zcheck(s, timeout_ms)
+        r = s.check()
         model = s.model() if r == z3.sat else None
         self.ex.solver_time += time.time() - t0
         self.ex.queries += 1
@@ -299,7 +269,7 @@ class State:
         s.set("timeout", timeout_ms)
         s.add(*ground)
         s.add(extra)
-        r = _zcheck(s, timeout_ms)
+        r = s.check()
         self.ex.solver_time += time.time() - t0
         self.ex.queries += 1
         return r
